@@ -168,7 +168,7 @@ func (s *SourceSpec) Available() int {
 }
 
 // FailErr is the error the source emits at FailAt (nil if it never fails).
-// The same value is returned on every call.
+// Every call returns an equal error (same code and message; compare with SameError).
 func (s *SourceSpec) FailErr() error {
 	if s.FailAt < 0 {
 		return nil
@@ -235,7 +235,7 @@ func (s *SourceSpec) String() string {
 		}
 	}
 	if s.Kind.Streams() {
-		fmt.Fprintf(&sb, " chunks=%v", s.Chunks)
+		fmt.Fprintf(&sb, " chunks=%s", renderChunks(s.Chunks))
 		if s.EOFWithData {
 			sb.WriteString(" eofWithData")
 		}
@@ -252,6 +252,26 @@ func (s *SourceSpec) String() string {
 	}
 	sb.WriteString("}")
 	return sb.String()
+}
+
+// renderChunks prints runs of equal sizes as "4x257".
+func renderChunks(cs []int) string {
+	var parts []string
+	for i := 0; i < len(cs); {
+		j := i
+		for j < len(cs) && cs[j] == cs[i] {
+			j++
+		}
+		if j-i >= 3 {
+			parts = append(parts, fmt.Sprintf("%dx%d", cs[i], j-i))
+		} else {
+			for k := i; k < j; k++ {
+				parts = append(parts, fmt.Sprint(cs[k]))
+			}
+		}
+		i = j
+	}
+	return "[" + strings.Join(parts, " ") + "]"
 }
 
 // Hash feeds the spec into a vstats case hash.
